@@ -49,6 +49,10 @@ def same_contents(a, b):
     return None
 
 
+def _passthrough(*a):
+    return a[0] if a else None
+
+
 def run_file(desc):
     """Dry run over REAL file-backed stores: the directory (names, bytes, mtimes, inodes - including staging files a killed writer left
     behind and unrelated files) must be exactly what it was; only modified times may be asked for."""
@@ -178,6 +182,15 @@ def run_case(desc):
     # to the dry run exactly as to the real run
     flaky_mt = desc["seed"] % 5 == 0
     rkw = {}
+    if desc["seed"] % 7 < 2:
+        # a transform_physical that works on a copy: the dry run must hand back the TRANSFORMED plan, as the real run executes it
+        def _tp(p_, o_):
+            q_ = p_.copy()
+            new_ = q_.call(_passthrough, o_) if o_ is not None else q_.call(_passthrough)
+            return q_, new_
+
+        rkw["transform_physical"] = _tp
+    exp = S.expect(out_ids, fresh)
     if flaky_mt:
         rkw["retry"] = 2
         seen_mt = set()
@@ -238,13 +251,19 @@ def run_case(desc):
         msA, stA = multiset(S), contents(S)
         # (2b) the real run from the same state
         S.restore(snap)
-        rB, excB = S.run(out_ids, W=rng.choice([1, 2, 8]), sched=rng.choice(["default", "random"]), fresh_tick=fresh)
+        rB, excB = S.run(out_ids, W=rng.choice([1, 2, 8]), sched=rng.choice(["default", "random"]), fresh_tick=fresh,
+                         **({"transform_physical": rkw["transform_physical"]} if "transform_physical" in rkw else {}))
         msB, stB = multiset(S), contents(S)
         if excA is not None or excB is not None:
             if not (excA is not None and excB is not None):
                 bad = f"physical plan alone -> {excA!r}; real run -> {excB!r}"
         else:
-            if msA != msB:
+            # besides agreeing with each other, both must be what the store state dictates (out-of-date oracle): e.g. nothing may depend on the wall clock
+            want_ms = {"calls": {i: 1 for i in exp.execs}, "reads": dict(collections.Counter(S.store_name[i] for i in exp.reads)),
+                       "writes": dict(collections.Counter(S.store_name[i] for i in exp.writes)), "side": dict(collections.Counter(S.store_name[i] for i in exp.side))}
+            if msA != want_ms and not flaky_mt:
+                bad = f"executing the dry run's physical plan performed {msA}, but the store state (out-of-date oracle) requires {want_ms}"
+            elif msA != msB:
                 bad = f"event multisets differ: physical plan alone {msA} vs real run {msB}"
             else:
                 d = same_contents(stA, stB)
